@@ -218,7 +218,7 @@ def const_text(v):
     if t == "int":
         return str(v["n"])
     if t == "str":
-        s = STR_TAGS[v["s"]]
+        s = STR_TAGS.get(v["s"], v["s"])
         assert re.match(r"^[A-Za-z0-9 ]*$", s)
         return "'" + s + "'"
     if t == "seq":
@@ -229,21 +229,27 @@ def const_text(v):
 # ------------------------------------------------------------------ source builder
 class Concrete:
     def __init__(self):
-        self.source = ""
+        self.srcs = [""]      # one source per template: entry template, then the libraries
+        self.cur = 0
         self.piece = {}       # atom key -> text
         self.sites = {}       # (i, s, j) -> dict(text, offset)
         self.attrfmt = {}     # (i, static index) -> (space, name, eq, quote, value)
         self.selfclosing = set()
         self.prev_text_tail = {}   # element index -> text directly before its start tag or None
 
+    @property
+    def source(self):
+        return self.srcs[0]
+
     def add(self, s):
-        off = len(self.source)
-        self.source += s
+        off = len(self.srcs[self.cur])
+        self.srcs[self.cur] += s
         return off
 
-    def linecol(self, off):
-        line = self.source.count("\n", 0, off) + 1
-        col = off - (self.source.rfind("\n", 0, off) + 1)
+    def linecol(self, off, tmpl=0):
+        src = self.srcs[tmpl]
+        line = src.count("\n", 0, off) + 1
+        col = off - (src.rfind("\n", 0, off) + 1)
         return line, col
 
 
@@ -268,9 +274,15 @@ def concretize(p, perm=0, style=None):
     items = p["items"]
     stack = []
     tagidx = 0
+    starts = {lb["from"]: n for n, lb in enumerate(p.get("libs", []), 1)}
     for idx0, it in enumerate(items):
         i = idx0 + 1
         k = it["k"]
+        if i in starts:
+            if plan == 2 and c.cur == 0:
+                c.add("</tal:block>")
+            c.srcs.append("")
+            c.cur = starts[i]
         if k == "text":
             for j0, part in enumerate(it["parts"]):
                 j = j0 + 1
@@ -284,7 +296,7 @@ def concretize(p, perm=0, style=None):
                     c.add("${")
                     txt = expr_text(part)
                     off = c.add(txt)
-                    c.sites[(i, "text", j)] = {"text": txt, "offset": off}
+                    c.sites[(i, "text", j)] = {"text": txt, "offset": off, "tmpl": c.cur}
                     c.add("}")
         elif k == "open":
             tagidx += 1
@@ -343,6 +355,24 @@ def concretize(p, perm=0, style=None):
                         parts.append(d["n"] + " ")
                     parts.append(ex((i, "attr", j), d["e"]))
                 stm.append(("attributes", pre + "attributes", parts))
+            if it.get("dm"):
+                stm.append(("define-macro", "metal:define-macro", [it["dm"]]))
+            if it.get("ds"):
+                stm.append(("define-slot", "metal:define-slot", [it["ds"]]))
+            if it.get("fs"):
+                stm.append(("fill-slot", "metal:fill-slot", [it["fs"]]))
+            if it.get("um", {}).get("m") == "yes":
+                u = it["um"]
+                txt = ("T%d" % u["lib"]) if u["whole"] else "T%d.macros['%s']" % (u["lib"], u["mname"])
+                stm.append(("use-macro", "metal:extend-macro" if u["ext"] else "metal:use-macro", [("x", (i, "use", 0), txt)]))
+            i18 = it.get("i18n", {})
+            if i18.get("m") == "yes":
+                if i18.get("d"):
+                    stm.append(("domain", "i18n:domain", [i18["d"]]))
+                if i18.get("c"):
+                    stm.append(("context", "i18n:context", [i18["c"]]))
+                if i18.get("t"):
+                    stm.append(("target", "i18n:target", ["'%s'" % i18["t"]]))
             if it["oe"]["m"] != "no":
                 stm.append(("on-error", pre + "on-error",
                             [("structure " if it["oe"]["s"] else ""), ex((i, "oe", 0), it["oe"]["e"])]))
@@ -381,7 +411,7 @@ def concretize(p, perm=0, style=None):
                             _, site, txt = part
                             enc = _attr_escape(txt)
                             off = c.add(enc)
-                            c.sites[site] = {"text": txt, "offset": off, "encoded": enc}
+                            c.sites[site] = {"text": txt, "offset": off, "encoded": enc, "tmpl": c.cur}
                         else:
                             c.add(part)
                     c.add('"')
@@ -398,7 +428,7 @@ def concretize(p, perm=0, style=None):
             else:
                 c.add("</" + name + ">")
                 c.piece[("etag", i0)] = "</" + name + ">"
-    if plan == 2:
+    if plan == 2 and c.cur == 0:
         c.add("</tal:block>")
     return c
 
@@ -453,6 +483,7 @@ def roman(n):
 
 
 ERRFIELD = None
+MACROEXPR = None
 
 
 def print_atoms(atoms, c, p, vf, objs=None):
@@ -465,6 +496,8 @@ def print_atoms(atoms, c, p, vf, objs=None):
         line, col = c.linecol(c.sites[(s["i"], s["s"], s["j"])]["offset"])
         return str(line if v["f"] == "lineno" else col)
     ERRFIELD = errfield
+    global MACROEXPR
+    MACROEXPR = lambda v: c.sites[(v["i"], "use", 0)]["text"].rsplit("/", 1)[-1]
     return _print_atoms(atoms, c, p, vf, objs)
 
 
@@ -550,6 +583,8 @@ def _val_text(v, vf, objs):
         return s if v["up"] else s.lower()
     if v["t"] == "errfield":
         return ERRFIELD(v)
+    if v["t"] == "macroexpr":
+        return MACROEXPR(v)
     obj = vf.make(v) if objs is None else objs(v)
     return conv(obj)
 
